@@ -25,7 +25,8 @@ def run(ctx, info):
     flagged = facts(ctx, info, ("entropy", "stale"))
     for n, bad in flagged.items():
         ctx.broke(f"skeleton-fact:{n}:{'+'.join(sorted(bad))}", f"{n}: {bad} (AlgoBridge.no_entropy / no_stale_reads no longer hold)")
-    pairs = L.c07_jobs(ctx, focus=set(flagged))
+    from .. import hot
+    pairs = L.c07_jobs(ctx, focus=set(flagged) | set(hot.changed_sources(info)))
     obs = L.run_pairs(pairs)
     n = L.c07_decide(ctx, pairs, obs)
     ctx.add_cover(2 * n, n, "every optimizer run twice with the same integer seed (seeds incl. 0, 42, 2^31-1) in different worker processes, the second after a random "
